@@ -11,6 +11,31 @@ const NAMES: [&str; 22] = [
     "End", "Cmdline", "BootLoaderName", "Module", "BasicMeminfo", "Bootdev", "Mmap", "Vbe", "Framebuffer", "ElfSections", "Apm", "Efi32", "Efi64", "Smbios", "AcpiV1", "AcpiV2", "Network",
     "EfiMmap", "EfiBs", "Efi32Ih", "Efi64Ih", "LoadBaseAddr",
 ];
+const VARIANTS: [m::TagType; 22] = [
+    m::TagType::End,
+    m::TagType::Cmdline,
+    m::TagType::BootLoaderName,
+    m::TagType::Module,
+    m::TagType::BasicMeminfo,
+    m::TagType::Bootdev,
+    m::TagType::Mmap,
+    m::TagType::Vbe,
+    m::TagType::Framebuffer,
+    m::TagType::ElfSections,
+    m::TagType::Apm,
+    m::TagType::Efi32,
+    m::TagType::Efi64,
+    m::TagType::Smbios,
+    m::TagType::AcpiV1,
+    m::TagType::AcpiV2,
+    m::TagType::Network,
+    m::TagType::EfiMmap,
+    m::TagType::EfiBs,
+    m::TagType::Efi32Ih,
+    m::TagType::Efi64Ih,
+    m::TagType::LoadBaseAddr,
+];
+const AREA_VARIANTS: [m::MemoryAreaType; 5] = [m::MemoryAreaType::Available, m::MemoryAreaType::Reserved, m::MemoryAreaType::AcpiAvailable, m::MemoryAreaType::ReservedHibernate, m::MemoryAreaType::Defective];
 const AREA_NAMES: [&str; 6] = ["", "Available", "Reserved", "AcpiAvailable", "ReservedHibernate", "Defective"];
 
 /// All conversion/equality laws for one value. `deep`: also the Debug names.
@@ -87,15 +112,14 @@ fn laws(v: u32, deep: bool) -> Result<(), String> {
         }
     }
     if deep {
-        let d = format!("{tt:?}");
-        let want = if v <= 21 { NAMES[v as usize].to_string() } else { format!("Custom({v})") };
-        if d != want || format!("{id:?}") != want {
-            return Err(format!("{v} maps to {d}, the specification's table says {want}"));
+        // the specification's table, by variant (not by any textual rendering)
+        let want = if v <= 21 { VARIANTS[v as usize] } else { m::TagType::Custom(v) };
+        if tt != want {
+            return Err(format!("{v} maps to {tt:?}, the specification's table says {} ({want:?})", if v <= 21 { NAMES[v as usize] } else { "Custom" }));
         }
-        let d = format!("{at:?}");
-        let want = if (1..=5).contains(&v) { AREA_NAMES[v as usize].to_string() } else { format!("Custom({v})") };
-        if d != want {
-            return Err(format!("memory-area type {v} maps to {d}, expected {want}"));
+        let want = if (1..=5).contains(&v) { AREA_VARIANTS[v as usize - 1] } else { m::MemoryAreaType::Custom(v) };
+        if at != want {
+            return Err(format!("memory-area type {v} maps to {at:?}, the specification says {} ({want:?})", if (1..=5).contains(&v) { AREA_NAMES[v as usize] } else { "Custom" }));
         }
     }
     Ok(())
@@ -126,9 +150,9 @@ fn elf_batch(start: u32, count: usize) -> Result<(), String> {
         }
         match it.next() {
             Some(s) if s.start_address() == e as u64 && s.section_type_raw() == raw => {
-                let got = format!("{:?}", s.section_type());
-                if got != name {
-                    return Err(format!("ELF raw type {raw:#x} classified as {got}, documented: {name}"));
+                let got = s.section_type() as u32;
+                if got != mb2_model::expect_mbi::elf_type_class(raw) {
+                    return Err(format!("ELF raw type {raw:#x} classified as {:?}, documented: {name}", s.section_type()));
                 }
             }
             Some(s) => return Err(format!("ELF raw type {raw:#x} ({name}) expected next, the iterator yielded entry {} with raw type {:#x}", s.start_address(), s.section_type_raw())),
